@@ -18,8 +18,8 @@ import gen_skeleton as gs
 import vloop
 
 # resource ids
-CONN, SESSION, PM, TAKEOVER, AUDIOFILE, SERVER, HTTPCONN, TRANSPORT, UNREG = range(9)
-RES_NAMES = {UNREG: "established protocol connection not yet known to close()", CONN: "protocol connection(s)", SESSION: "http session manager", PM: "playback manager (_is_acquired)",
+CONN, SESSION, PM, TAKEOVER, AUDIOFILE, SERVER, HTTPCONN, TRANSPORT, UNREG, RTSPCONN = range(10)
+RES_NAMES = {RTSPCONN: "RTSP connection of the streaming session", UNREG: "established protocol connection not yet known to close()", CONN: "protocol connection(s)", SESSION: "http session manager", PM: "playback manager (_is_acquired)",
              TAKEOVER: "interface takeover", AUDIOFILE: "audio file", SERVER: "local web server",
              HTTPCONN: "http connection", TRANSPORT: "audio datagram transport"}
 
@@ -49,6 +49,7 @@ def specs():
         }, "exn-balanced"),
         "stream_file": (RaopStream.stream_file, {
             "inline": {"self.playback_manager.acquire": RaopPlaybackManager.acquire,
+                       "self.playback_manager.setup": RaopPlaybackManager.setup,
                        "self.playback_manager.teardown": RaopPlaybackManager.teardown},
             "effects": [
                 (r"^self\._is_acquired = True", [("acquire", PM, False)]),
@@ -57,9 +58,11 @@ def specs():
                 (r"^takeover_release\(\)$", [("release", TAKEOVER, False)]),
                 (r"^open_source\(", [("acquire", AUDIOFILE, True)]),
                 (r"^audio_file\.close\(\)$", [("release-then-call", AUDIOFILE, True)]),
+                (r"^self\._connection = await http_connect", [("acquire", RTSPCONN, False)]),
+                (r"^self\._connection\.close\(\)$", [("release", RTSPCONN, False)]),
             ],
-            "guards": {"takeover_release": ("held", TAKEOVER), "audio_file": ("held", AUDIOFILE)},
-            "nofail": [r"^self\._stream_client\.close\(\)$", r"^self\._connection\.close\(\)$", r"^self\._context\.reset\(\)$",
+            "guards": {"takeover_release": ("held", TAKEOVER), "audio_file": ("held", AUDIOFILE), "self._connection": ("held", RTSPCONN)},
+            "nofail": [r"^self\._stream_client\.close\(\)$", r"^self\._context\.reset\(\)$",
                        r"^exceptions\.\w+\(", r"^extract_credentials\(", r"^merge_into\("],
         }, "balanced"),
         "play_url": (AirPlayStream.play_url, {
@@ -258,11 +261,12 @@ async def scenario_stream_file(n, mode, variant):
     from pyatv import exceptions
 
     plan = FaultPlan(n, mode)
-    state = {"takeover": 0, "conn_closed": 0, "client_closed": 0, "file_closed": 0, "file_open": 0}
+    state = {"takeover": 0, "conn_closed": 0, "conn_open": 0, "client_closed": 0, "file_closed": 0, "file_open": 0}
 
     class Conn:
         def close(self):
             state["conn_closed"] += 1
+            state["conn_open"] -= 1
 
     class Ctx:
         credentials = None
@@ -303,9 +307,13 @@ async def scenario_stream_file(n, mode, variant):
             state["file_closed"] += 1
             await plan.tick("audio_file.close")
 
+    from pyatv import conf as conf_mod
+    from pyatv.settings import Settings as RealSettings
+
     class Core:
         service = MutableService("id", Protocol.RAOP, 7000, {})
-        settings = None
+        settings = RealSettings()
+        config = conf_mod.AppleTV("127.0.0.1", "x")
 
         def takeover(self, *ifaces):
             plan.tick_sync("core.takeover")
@@ -318,15 +326,31 @@ async def scenario_stream_file(n, mode, variant):
     core = Core()
     pm = RaopPlaybackManager(core)
 
-    async def setup(service):
-        await plan.tick("playback_manager.setup")
-        pm._connection = Conn()
-        pm._stream_client = Client()
-        pm._rtsp = object()
-        return pm._stream_client, pm._context
+    # the REAL RaopPlaybackManager.setup runs; what it calls is replaced: opening the connection,
+    # building the RTSP session, picking the protocol version and building the stream client can
+    # each fail, leaving the session half set up
+    async def http_connect(*a):
+        await plan.tick("http_connect")
+        state["conn_open"] += 1
+        return Conn()
 
-    pm.setup = setup
+    def rtsp_session(conn):
+        plan.tick_sync("RtspSession()")
+        return object()
+
+    def protocol_version(service, preferred):
+        plan.tick_sync("get_protocol_version")
+        from pyatv.protocols.airplay.utils import AirPlayMajorVersion
+        return AirPlayMajorVersion.AirPlayV1
+
+    def stream_client(rtsp, context, proto, settings):
+        plan.tick_sync("StreamClient()")
+        return Client()
+
     pm._context = Ctx()
+    saved_setup = (raop.http_connect, raop.RtspSession, raop.get_protocol_version, raop.StreamClient, raop.airplayv1.AirPlayV1)
+    raop.http_connect, raop.RtspSession, raop.get_protocol_version, raop.StreamClient = http_connect, rtsp_session, protocol_version, stream_client
+    raop.airplayv1.AirPlayV1 = lambda context, rtsp: object()
 
     async def open_source(*a):
         await plan.tick("open_source")
@@ -356,7 +380,7 @@ async def scenario_stream_file(n, mode, variant):
             leaks = []
             second = "not-run"
             if plan.blocked is not None:
-                before = (pm._is_acquired, state["takeover"], pm._connection is not None, state["file_open"])
+                before = (pm._is_acquired, state["takeover"], pm._connection is not None, state["file_open"], state["conn_open"])
                 try:
                     await stream.stream_file("dummy")
                     second = "accepted"
@@ -366,7 +390,7 @@ async def scenario_stream_file(n, mode, variant):
                     second = "raised:" + type(ex).__name__
                 if second != "refused":
                     leaks.append("overlapping stream_file was not refused: " + second)
-                after = (pm._is_acquired, state["takeover"], pm._connection is not None, state["file_open"])
+                after = (pm._is_acquired, state["takeover"], pm._connection is not None, state["file_open"], state["conn_open"])
                 if after != before or not pm._is_acquired:
                     leaks.append("refused overlapping call disturbed the active stream (before=%s after=%s)" % (before, after))
                 plan.blocked.set_result(None)
@@ -385,6 +409,8 @@ async def scenario_stream_file(n, mode, variant):
             leaks.append("takeover not released")
         if pm._connection is not None or pm._stream_client is not None:
             leaks.append("session not torn down")
+        if state["conn_open"] != 0:
+            leaks.append("RTSP connection left open")
         if state["file_open"] != 0:
             leaks.append("audio file left open")
         # a later stream must start normally
@@ -396,6 +422,7 @@ async def scenario_stream_file(n, mode, variant):
         return {"result": res, "hit": plan.hit, "calls": plan.count, "leaks": leaks}
     finally:
         raop.open_source = saved
+        raop.http_connect, raop.RtspSession, raop.get_protocol_version, raop.StreamClient, raop.airplayv1.AirPlayV1 = saved_setup
 
 
 async def scenario_stream_overlap(block_at):
